@@ -62,7 +62,16 @@ RULE = ("a case is one schedule: storage {FileStorage, RamStorage} x compound {o
         "the same thread, another thread and another (forked) process must each raise LockError (after its timeout); after "
         "MpWriter.commit() / cancel() / a failing with-block the lock is free for a fresh writer and for another process, the "
         "generation advanced by exactly 1 / 0 / 0, and the documents of both writers are there; 'mp-second': MpWriter(timeout) "
-        "requested while a plain writer holds the index must raise LockError.")
+        "requested while a plain writer holds the index must raise LockError. "
+        "UNDELETABLE TOC FILES: a harness-only FileStorage subclass whose delete_file() raises OSError for *.toc (what "
+        "clean_files() documents and swallows: another process has the file open / sticky directory), so the TOC files of all "
+        "earlier generations coexist with the current one; the index is padded with empty commits to 2-4 generations below a "
+        "decimal digit boundary (10; thorough also 100). (1) sequential cases (one in 20): 5-8 writers in a row "
+        "(commit kinds / with-block / cancel / failing with-block, half of them through a re-opened Index object); after each: "
+        "writer.generation = latest + 1, latest_generation() (same object and re-opened) advanced by exactly 1 (0 after "
+        "cancel), a fresh reader is of that generation and shows exactly the committed history, the next writer(timeout=0) "
+        "opens; (2) every 6th FileStorage thread schedule runs on such a storage padded to generation 7-8 (thorough 97-98), "
+        "judged by the unchanged offline checker.")
 ASSUMPTIONS = [
     "fork-while-locked cases (vf/workers/c04_fork.py, one in 25 cases): the process forks with os.fork() while a writer holds "
     "the lock and the child lives on without touching the index; commit / cancel / failing with-block / BufferedWriter "
@@ -94,6 +103,8 @@ ASSUMPTIONS = [
     "cancel() on that writer then frees it, which state a reader sees, whether a later commit works): the statement promises "
     "nothing for a failing commit(), so none of these counters is a verdict",
     "lock protocol operations themselves (flock / lock file open) are never made to fail",
+    "undeletable-TOC storage: only delete_file() of *.toc fails (OSError, swallowed by clean_files by design); segment files "
+    "delete normally; leftover TOC files themselves are not judged",
 ]
 SHARDS = {"quick": 4, "thorough": 16}
 BUDGET_S = {"quick": 60, "thorough": 660}
@@ -114,7 +125,10 @@ FLOORS = {
               "fault.checks.later_commit": 100, "fault.out.fault": 90, "finish.iofault.fault": 110,
               "reads.after_iofault": 120, "mp.completed": 8, "mp.lockerror.same_thread": 4, "mp.lockerror.other_thread": 4,
               "mp.lockerror.other_process": 4, "mp.lockerror.mpwriter_as_second": 1, "mp.progress.fresh_writer_ok": 8,
-              "mp.held_with_subwriters_running": 3},
+              "mp.held_with_subwriters_running": 3,
+              # undeletable TOC files + generation padding
+              "sticky.cases": 6, "sticky.schedules": 8, "sticky.reads": 40, "sticky.commits": 100,
+              "sticky.commits_crossing_digit_boundary_with_older_toc_present": 6},
     # thorough floors = about 1/4 of one 16-shard x 660 s run on the same busy machine
     "thorough": {"schedules": 6000, "sched.steps": 19000000, "interleavings.distinct": 6000,
                  "attempts.lockerror": 30000, "commits.successful": 48000, "attempts.overlapping": 48000,
@@ -126,7 +140,9 @@ FLOORS = {
                  "lines.yields": 6000000,
                  "fault.cases": 100, "fault.points": 3000, "fault.checks.lock_free": 3000, "fault.checks.later_commit": 3000,
                  "finish.iofault.fault": 3000, "mp.completed": 100, "mp.lockerror.other_process": 50,
-                 "mp.lockerror.mpwriter_as_second": 15, "mp.progress.fresh_writer_ok": 100},
+                 "mp.lockerror.mpwriter_as_second": 15, "mp.progress.fresh_writer_ok": 100,
+                 "sticky.cases": 100, "sticky.schedules": 150, "sticky.commits": 2500,
+                 "sticky.commits_crossing_digit_boundary_with_older_toc_present": 150, "sticky.crossing.100": 15},
 }
 
 VOCAB = ["alfa", "bravo", "charlie", "delta", "echo", "foxtrot"]
@@ -750,7 +766,17 @@ def run_thread_case(ctx, idx, rng, lines=False):
     nontrivial = False
     try:
         # ---- prelude (unscheduled): a few base segments so that deletes and merges have material
-        if storage == "file":
+        # (own generator: the schedule stays what it was) every 6th FileStorage schedule runs on a storage whose TOC files
+        # cannot be deleted, padded so that the racing commits cross the generation digit boundary 9 -> 10 (thorough: 99 -> 100)
+        xr = random.Random("c04-sticky:%d:%d" % (ctx.seed, idx))
+        sticky = storage == "file" and xr.random() < 1 / 6.0
+        if sticky:
+            ix = sticky_storage(os.path.join(root)).create_index(make_schema())
+            target = 10 if (ctx.quick or xr.random() < 0.6) else 100
+            pad_generations(ix, target - xr.choice([2, 3]))
+            ctx.count("sticky.schedules")
+            wb["undeletable_toc_files"] = True
+        elif storage == "file":
             ix = index.create_in(os.path.join(root), make_schema())
         else:
             ix = RamStorage().create_index(make_schema())
@@ -880,6 +906,13 @@ def run_thread_case(ctx, idx, rng, lines=False):
                     ctx.count("attempts.overlapping")
             ctx.count("commits.successful", len(H.commits))
             ctx.count("lock.tries", len(tries))
+            if sticky:
+                ctx.count("sticky.commits", len(H.commits))
+                for c in H.commits:
+                    if len(str(c["gen"])) > len(str(c["gen"] - 1)):
+                        ctx.count("sticky.commits_crossing_digit_boundary_with_older_toc_present")
+                        ctx.count("sticky.crossing.%d" % c["gen"])
+                        ctx.count("sticky.schedules_crossing")
         if complete and not failed:
             # (e) bounded progress + final state (b)(c), unscheduled
             from whoosh import index as windex
@@ -1485,6 +1518,157 @@ def run_fault_case(ctx, idx, rng):
 
 
 # ----------------------------------------------------------------------
+# TOC files that cannot be deleted (old generations' TOCs coexist with the current one)
+# ----------------------------------------------------------------------
+
+_STICKY = []
+
+
+def sticky_storage(path):
+    """A FileStorage (harness-only subclass) whose delete of *.toc files fails with OSError - what happens where another
+    process still has the file open (Windows) or the directory is sticky. whoosh.index.clean_files() documents and swallows
+    exactly that, so the TOC files of earlier generations survive successful commits. Segment files delete normally."""
+    if not _STICKY:
+        import errno
+        from whoosh.filedb.filestore import FileStorage
+
+        class StickyTocStorage(FileStorage):
+            def delete_file(self, name):
+                if name.endswith(".toc"):
+                    raise OSError(errno.EACCES, "harness: TOC files cannot be deleted in this storage", name)
+                return FileStorage.delete_file(self, name)
+        _STICKY.append(StickyTocStorage)
+    return _STICKY[0](path)
+
+
+def old_tocs_present(d, gen):
+    return sorted(int(m.group(1)) for m in (TOCRE.match(f) for f in os.listdir(d)) if m and int(m.group(1)) < gen)
+
+
+def pad_generations(ix, upto):
+    """Empty commits (each writes a new TOC) until latest_generation() == upto."""
+    n = 0
+    while ix.latest_generation() < upto:
+        ix.writer().commit(merge=False)
+        n += 1
+    return n
+
+
+def run_sticky_case(ctx, idx, rng):
+    """Sequential writers on an index whose old TOC files stay: every commit must still advance latest_generation() by
+    exactly one, a fresh reader must see exactly the committed history, the next writer must open and commit - in particular
+    across a decimal digit boundary of the generation number (9 -> 10, thorough also 99 -> 100)."""
+    from whoosh import index
+    root = tempfile.mkdtemp(prefix="vf-c04s-")
+    d = os.path.join(root, "ix")
+    os.mkdir(d)
+    target = 10 if (ctx.quick or rng.random() < 0.5) else 100
+    compound = rng.random() < 0.7
+    wb = {"case": idx, "kind": "undeletable-toc-files", "digit_boundary": target, "compound": compound, "steps": []}
+    ctx.count("sticky.cases")
+    failed = False
+    crossed = 0
+    try:
+        st = sticky_storage(d)
+        ix = st.create_index(make_schema())
+        pad_generations(ix, target - rng.randint(2, 4))
+        model = {}
+        g = ix.latest_generation()
+        wb["g0"] = g
+        nsteps = rng.randint(5, 8)
+        for step in range(nsteps):
+            if rng.random() < 0.4:
+                ix = st.open_index()          # a fresh Index object over the directory
+            fin = rng.choice(["default", "default", "nomerge", "optimize", "with", "cancel", "exception"])
+            rec = {"step": step, "finish": fin, "generation_before": g}
+            wb["steps"].append(rec)
+            try:
+                w = ix.writer(timeout=0, compound=compound)
+            except index.LockError:
+                ctx.fail("progress", "sticky:next-writer-lockerror", wb, "ix.writer(timeout=0) after generation %d" % g)
+                failed = True
+                break
+            ctx.count("sticky.writers")
+            if w.generation != g + 1:
+                rec["writer_generation"] = w.generation
+                ctx.fail("generation", "sticky:writer.generation-not-latest-plus-one", wb,
+                         "writer.generation %r with %d committed" % (w.generation, g))
+                w.cancel()
+                failed = True
+                break
+            adds = dict(("s%d.%d" % (step, i), gen_text(rng)) for i in range(rng.randint(1, 2)))
+            dels = rng.sample(sorted(model), 1) if (model and rng.random() < 0.4) else []
+            rec["adds"], rec["dels"] = sorted(adds), dels
+            for key, text in sorted(adds.items()):
+                w.add_document(id=key, t=text)
+            for key in dels:
+                w.delete_by_term("id", key)
+            committed = fin not in ("cancel", "exception")
+            older = old_tocs_present(d, g + 1)
+            if fin == "cancel":
+                w.cancel()
+            elif fin == "exception":
+                try:
+                    with w:
+                        raise Boom()
+                except Boom:
+                    pass
+            elif fin == "with":
+                with w:
+                    pass
+            else:
+                w.commit(**commit_kwargs(fin))
+            if committed:
+                for key in dels:
+                    model.pop(key, None)
+                model.update(adds)
+                ctx.count("sticky.commits")
+                if len(older) >= 2:
+                    ctx.count("sticky.commits_with_older_toc_files_present")
+                if len(str(g + 1)) > len(str(g)) and g in older:
+                    crossed += 1
+                    ctx.count("sticky.commits_crossing_digit_boundary_with_older_toc_present")
+                    ctx.count("sticky.crossing.%d" % (g + 1))
+            exp_g = g + (1 if committed else 0)
+            latest = ix.latest_generation()
+            ix2 = index.open_dir(d)
+            latest2 = ix2.latest_generation()
+            rg, keys, docs = read_keys(ix2 if rng.random() < 0.5 else ix)
+            ctx.count("sticky.reads")
+            rec.update({"latest_generation": latest, "reader_generation": rg})
+            if latest != exp_g or latest2 != exp_g:
+                ctx.fail("generation", "sticky:latest_generation-advanced-by-other-than-%d-after-%s" % (
+                    1 if committed else 0, "commit" if committed else fin), wb,
+                    "expected %d, Index.latest_generation() says %d (re-opened: %d); TOC files of generations %r present" % (
+                        exp_g, latest, latest2, old_tocs_present(d, 10 ** 9)))
+                failed = True
+                break
+            if rg != exp_g:
+                ctx.fail("lost-update", "sticky:fresh-reader-is-of-an-older-generation", wb,
+                         "reader generation %r, committed generation %d" % (rg, exp_g))
+                failed = True
+                break
+            if keys != sorted(model) or any(docs[kk] != model[kk] for kk in keys):
+                ctx.fail("lost-update", "sticky:fresh-reader-differs-from-committed-history",
+                         dict(wb, missing=sorted(set(model) - set(keys)), unexpected=sorted(set(keys) - set(model))))
+                failed = True
+                break
+            g = exp_g
+        if not failed:
+            try:
+                w = ix.writer(timeout=0)
+                w.cancel()
+                ctx.count("progress.fresh_writer_ok")
+            except index.LockError:
+                ctx.fail("progress", "sticky:index-still-locked-after-all-writers-finished", wb)
+                failed = True
+    finally:
+        shutil.rmtree(root, ignore_errors=True)
+    ctx.case(("sticky-toc", target, compound, tuple(r["finish"] for r in wb["steps"])), crossed > 0 and not failed,
+             {"case": wb} if (crossed and idx % 5 == 0) else None)
+
+
+# ----------------------------------------------------------------------
 # MpWriter (procs=2) as one of the racing writers (subprocess, timeout guard)
 # ----------------------------------------------------------------------
 
@@ -1587,6 +1771,8 @@ def run(ctx):
             run_fault_case(ctx, idx, rng)
         elif k % 25 == 13:
             run_mp_case(ctx, idx, rng)
+        elif k % 20 == 12:
+            run_sticky_case(ctx, idx, rng)
         elif k % ctx.pick(40, 30) == 3:
             run_proc_case(ctx, idx, rng)
         elif k % ctx.pick(4, 3) == 1:
